@@ -88,3 +88,37 @@ def kf_cal_shl_workaround(name):
 
 def kf_known_names(name):
     return kf_vcs_metadata_files(name) or kf_cal_shl_workaround(name)
+
+
+# ---- Git strategy: lookups in the two answer sets built at construction (C03) ---------------------------------------
+relative_of = ufun("relative_of", ["Path", "Path"], "Path")
+
+
+@contract("reuse._util.relative_from_root", serves=["C03", "C14"], assumed=True,
+          why="lexical relativisation (PurePath.relative_to, else os.path.relpath): a function of (root, path)")
+class RelativeFromRootUtil:
+    pure = True
+    types = {"path": "Path", "root": "Path", "return": "Path"}
+
+    def post(path, root, result):
+        return result == relative_of(root, path)
+
+
+@contract("reuse.vcs.VCSStrategyGit.is_submodule", serves=["C03"])
+class GitIsSubmodule:
+    types = {"self": "VCSStrategyGit", "path": "Path", "return": "bool"}
+
+    def post(self, path, result):
+        # a directory is skipped as a submodule exactly when it IS one of the registered submodule roots
+        # (not an ancestor, not a descendant)
+        return result == exists(lambda sm: sm in self._submodules
+                                and relative_of(self.root, path).resolve() == sm.resolve(), "Path")
+
+
+@contract("reuse.vcs.VCSStrategyGit.is_ignored", serves=["C03"])
+class GitIsIgnored:
+    types = {"self": "VCSStrategyGit", "path": "Path", "return": "bool"}
+
+    def post(self, path, result):
+        # Git's answer set is consulted with the path relative to the repository root
+        return result == (relative_of(self.root, path) in self._all_ignored_files)
